@@ -112,6 +112,9 @@ pub struct Failure {
     /// for comment-* kinds: the comment concerned
     pub comment: Option<String>,
     pub formatted: Option<String>,
+    /// coarse, construct-specific descriptor of the failure (used in fingerprints of failures
+    /// that are not tied to an inserted comment)
+    pub tag: String,
 }
 
 pub enum Verdict {
@@ -123,12 +126,70 @@ pub enum Verdict {
 }
 
 fn fail(kind: &str, detail: String, comment: Option<String>, formatted: Option<&str>) -> Verdict {
+    let tag = match kind {
+        "output-does-not-parse" | "refused" => match detail.find("Unexpected token: ") {
+            Some(i) => {
+                let w: String = detail[i + 18..].chars().take_while(|c| c.is_alphanumeric()).collect();
+                format!("unexpected-{}", w)
+            }
+            None => {
+                if detail.contains("end of file") { "unexpected-eof".into() } else { "other".into() }
+            }
+        },
+        _ => "x".to_string(),
+    };
     Verdict::Fail(Failure {
         kind: kind.into(),
         detail,
         comment,
         formatted: formatted.map(|s| s.to_string()),
+        tag,
     })
+}
+
+fn with_tag(v: Verdict, tag: String) -> Verdict {
+    match v {
+        Verdict::Fail(mut f) => {
+            f.tag = tag;
+            Verdict::Fail(f)
+        }
+        v => v,
+    }
+}
+
+/// The AST constructor / field names at the first difference of two position-free renderings:
+/// `Constructor/Ident`, `Infix/App`, or the preceding field name (`name`) when the difference is
+/// inside a string.
+fn ast_diff_tag(a: &str, b: &str) -> String {
+    let i = a.bytes().zip(b.bytes()).position(|(x, y)| x != y).unwrap_or(a.len().min(b.len()));
+    let is_w = |c: u8| c.is_ascii_alphanumeric() || c == b'_';
+    let ab = a.as_bytes();
+    let mut st = i;
+    while st > 0 && is_w(ab[st - 1]) {
+        st -= 1;
+    }
+    let word = |s: &str| -> String { s.bytes().skip(st).take_while(|c| is_w(*c)).map(|c| c as char).collect() };
+    let (wa, wb) = (word(a), word(b));
+    if !wa.is_empty() || !wb.is_empty() {
+        return format!("{}/{}", wa, wb).chars().take(48).collect();
+    }
+    // inside punctuation or a string: the previous word
+    let mut e = st;
+    while e > 0 && !is_w(ab[e - 1]) {
+        e -= 1;
+    }
+    let mut s0 = e;
+    while s0 > 0 && is_w(ab[s0 - 1]) {
+        s0 -= 1;
+    }
+    a[s0..e].to_string()
+}
+
+fn line_tag(src: &str) -> String {
+    match lex::tokenize(src) {
+        Some(t) if !t.is_empty() => lex::class(&t[0], src),
+        _ => "blank".into(),
+    }
 }
 
 /// Evaluate the property statement on one input text.
@@ -200,7 +261,10 @@ pub fn check(vm: &RootedThread, src: &str) -> Verdict {
         let i = a0.bytes().zip(a1.bytes()).position(|(x, y)| x != y).unwrap_or(0);
         let lo = i.saturating_sub(60);
         let cut = |s: &str| -> String { s.chars().skip(lo).take(160).collect() };
-        return fail("ast-changed", format!("…{} ≠ …{}", cut(&a0), cut(&a1)), None, Some(&f1));
+        return with_tag(
+            fail("ast-changed", format!("…{} ≠ …{}", cut(&a0), cut(&a1)), None, Some(&f1)),
+            ast_diff_tag(&a0, &a1),
+        );
     }
     let l0 = literals_of(src, &t0);
     let l1 = literals_of(&f1, &t1);
@@ -210,7 +274,13 @@ pub fn check(vm: &RootedThread, src: &str) -> Verdict {
     match format(vm, &f1) {
         Fmt::Ok(f2) => {
             if f2 != f1 {
-                return fail("not-idempotent", first_diff(&f1, &f2), None, Some(&f1));
+                let tag = f1
+                    .lines()
+                    .zip(f2.lines())
+                    .find(|(x, y)| x != y)
+                    .map(|(x, y)| format!("{}>{}", line_tag(x), line_tag(y)))
+                    .unwrap_or_else(|| "line-count".into());
+                return with_tag(fail("not-idempotent", first_diff(&f1, &f2), None, Some(&f1)), tag);
             }
         }
         Fmt::Refused(e) => return fail("output-does-not-parse", e.chars().take(300).collect(), None, Some(&f1)),
